@@ -324,20 +324,31 @@ def eval_protocol(case):
         elif op == "R":
             arrs = [numpy.array([[rank + 1.0, 1.0], [0.5 * rank, -2.0]]) for rank in range(size)]
             tot = sum(arrs[1:], arrs[0].copy())
-            outs = []
-            for rank in range(size):
-                Manager().parallel_conf = cfgs[rank]
-                cfgs[rank].comm.next_sum = tot
-                a = arrs[rank].copy()
-                P.distributed_configuration().allreduce(a)
-                outs.append(a)
-            for rank in range(size):
-                exp = tot if level == 1 else arrs[rank]
-                if not numpy.array_equal(outs[rank], exp):
-                    v("protocol/allreduce/%s" % ("not-summed-at-level-1" if level == 1
-                                                  else "changed-outside-level-1"),
-                      "after %r (%d regions open) rank %d holds %s after allreduce, expected %s"
-                      % (pre, level, rank, outs[rank].tolist(), exp.tolist()))
+            # the accumulator belongs to the caller: whatever its memory layout, the array the
+            # caller passed holds the sum afterwards
+            def _slice3(x):
+                w = numpy.zeros(x.shape + (2,))
+                w[:, :, 0] = x
+                return w[:, :, 0]
+            layouts = (("C", lambda x: x.copy()), ("F", lambda x: numpy.asfortranarray(x)),
+                       ("T-view", lambda x: x.T.copy().T), ("slice-of-3D", _slice3))
+            for lname, lay in layouts:
+                outs = []
+                for rank in range(size):
+                    Manager().parallel_conf = cfgs[rank]
+                    cfgs[rank].comm.next_sum = tot
+                    a = lay(arrs[rank])
+                    P.distributed_configuration().allreduce(a)
+                    outs.append(a)
+                for rank in range(size):
+                    exp = tot if level == 1 else arrs[rank]
+                    if not numpy.array_equal(outs[rank], exp):
+                        v("protocol/allreduce/%s%s" % ("not-summed-at-level-1" if level == 1
+                                                        else "changed-outside-level-1",
+                                                        "" if lname == "C" else "/layout=" + lname),
+                          "after %r (%d regions open) rank %d holds %s after allreduce of a %s "
+                          "array, expected %s"
+                          % (pre, level, rank, outs[rank].tolist(), lname, exp.tolist()))
             trace.append([o.tolist() for o in outs])
     return {"nontrivial": size > 1 and "S" in word and any(c in word for c in "LAR"),
             "outcome": trace, "violations": viol}
